@@ -115,6 +115,13 @@ CLAIMED.update({
             "and zero-sized matrices with up to usize::MAX elements of alignment 1..8 run against the extracted pointer-level model.",
             TB + " Provenance and aliasing are represented by addresses and allocation bounds only.", "DESIGN §7 C03"),
 })
+CLAIMED.update({
+    'C20': ("Rocq theorems on a character-level model of src/fmt.rs + differential correspondence on the formatted strings with direct row-structure oracles",
+            "PARTIAL. Proved on the model (every coherent matrix, every shape incl. degenerate ones, both orders, every rendering function: any width, any number of lines): Display and Debug never panic - the per-element "
+            "line cache is only indexed inside its bounds - and element-less matrices print \"[]\". Decided by correspondence + direct oracles (not by a theorem): the exact strings of Display and Debug equal the "
+            "model's for every shape <= 4x4 in both orders over a table of renderings (empty, multi-byte, multi-line, CRLF, trailing newline, wide); one bracketed line per row, equal character widths, column order, "
+            "Display equality across storage orders, Debug labels = memory positions, row/column numbers. Feature configurations: the harness is built with the crate's default features; the colour path is modelled as "
+            "'not supported by the stream' (output piped), the no-default/full builds are not separately run.",
+            TB + " char-width = one column per code point (the crate counts chars); owo-colors/supports-color behaviour on a non-tty is observed, not proved.", "DESIGN §7 C20"),
+})
 NOT_APPLICABLE = {}
-for _p in ['C20']:
-    NOT_APPLICABLE[_p] = "not claimed yet: the check for this property is still being built in this round (the technique applies; see DESIGN.md §7)"
